@@ -10,6 +10,7 @@ CONSTANTS
   One = 2
   Names <- AllNames
   CondIdx <- AllConds
+  ElifIdx <- AllConds
   DefIdx <- AllDefs
   TextIdx <- AllTexts
   MaxLines = 12
